@@ -132,11 +132,31 @@ def xml_alt(inst):
     return f'<t:E xmlns:t="urn:T"{k}>{body}</t:E>'
 
 
+def xsd_fixedws(cfg):
+    fixed = "1" if cfg["dt"] == "integer" else "a b"
+    if cfg["wrap"]:
+        e = (f'<xs:element name="E" fixed="{fixed}"><xs:complexType><xs:simpleContent><xs:extension base="xs:{cfg["dt"]}">'
+             '<xs:attribute name="k" type="xs:string"/></xs:extension></xs:simpleContent></xs:complexType></xs:element>')
+    else:
+        e = f'<xs:element name="E" type="xs:{cfg["dt"]}" fixed="{fixed}"/>'
+    return (f'<xs:schema xmlns:xs="{cm.XS}" targetNamespace="urn:T" xmlns:t="urn:T" '
+            f'elementFormDefault="qualified">{e}</xs:schema>')
+
+
+def xml_fixedws(cfg, inst):
+    if cfg["dt"] == "integer":
+        text = {"same": "1", "padded": " 1 ", "tabbed": "\t1", "inner2": "1  ", "other": "2", "": ""}[inst]
+    else:
+        text = {"same": "a b", "padded": " a b ", "tabbed": "a&#9;b", "inner2": "a  b", "other": "a c", "": ""}[inst]
+    return f'<t:E xmlns:t="urn:T">{text}</t:E>'
+
+
 def judge(job):
     mode, cfg, types, cases = job
     out = []
     xsd = {"xsitype": lambda: xsd_xsitype(cfg, types), "subst": lambda: xsd_subst(cfg, types),
-           "simple": lambda: xsd_simple(cfg), "alt": lambda: xsd_alt(cfg)}[mode]()
+           "simple": lambda: xsd_simple(cfg), "alt": lambda: xsd_alt(cfg),
+           "fixedws": lambda: xsd_fixedws(cfg)}[mode]()
     n = 0
     for ver in (("1.1",) if mode == "alt" else ("1.0", "1.1")):
         schema, err = cm.build(ver, xsd)
@@ -145,7 +165,8 @@ def judge(job):
             continue
         for inst, word, want in cases:
             xml = {"xsitype": lambda: xml_xsitype(inst, word), "subst": lambda: xml_subst(cfg, types, inst),
-                   "simple": lambda: xml_simple(inst), "alt": lambda: xml_alt(inst)}[mode]()
+                   "simple": lambda: xml_simple(inst), "alt": lambda: xml_alt(inst),
+                   "fixedws": lambda: xml_fixedws(cfg, inst)}[mode]()
             n += 1
             try:
                 got = schema.is_valid(xml)
@@ -185,7 +206,7 @@ def known(mode, cfg, inst, direction):
 def run(ctx: Ctx):
     thorough = ctx.tier == "thorough"
     total = 0
-    for mode in ("xsitype", "subst", "simple", "alt"):
+    for mode in ("xsitype", "subst", "simple", "alt", "fixedws"):
         by, types = explore(ctx, mode, small=not thorough)
         keys = sorted(by)
         jobs = [(mode, json.loads(k), types[k], by[k]) for k in keys]
@@ -195,7 +216,8 @@ def run(ctx: Ctx):
             for ver, inst, what, xml, direction in bad:
                 ctx.report({"mode": m, "ver": ver, "cfg": cfg, "types": ty, "inst": inst, "xml": xml,
                             "xsd": {"xsitype": lambda: xsd_xsitype(cfg, ty), "subst": lambda: xsd_subst(cfg, ty),
-                                    "simple": lambda: xsd_simple(cfg), "alt": lambda: xsd_alt(cfg)}[m](),
+                                    "simple": lambda: xsd_simple(cfg), "alt": lambda: xsd_alt(cfg),
+                                    "fixedws": lambda: xsd_fixedws(cfg)}[m](),
                             "observed": what},
                            f"{m} {ver}: {what} for {json.dumps(inst)} under {json.dumps(cfg)}"[:400],
                            finding=known(m, cfg, inst, direction))
@@ -209,7 +231,8 @@ def run(ctx: Ctx):
                 "nillable element) x every instance (xsi:type in {none,T0,T1,T2,unknown,xs:string} x "
                 "xsi:nil x content variant), and every substitution configuration (head, member, "
                 "member of member) x child; simple-typed element (xsi:type among simple types, fixed value in "
-                "another lexical form, nil) x instance; XSD 1.1 type alternatives (5 alternative lists x @k x "
+                "another lexical form, nil) x instance; fixed values against the whiteSpace facet of 4 types (plain and as "
+                "simple content) x 6 text classes; XSD 1.1 type alternatives (5 alternative lists x @k x "
                 "content); quick uses a reduced family of block sets; both classes")
     ctx.assumptions += ["block sets only on the declared type, the element and blockDefault "
                         "(explicit blocks on intermediate types are outside the universe: XSD 1.0 and "
